@@ -17,7 +17,7 @@ from typing import Dict, List, Optional
 from ..model import AnalysisError, ClassInfo, FunctionInfo, Model
 from ..paths import PathEnumerator, find_calls
 from ..report import Report
-from ..sym import (FALSE, TRUE, Evaluator, Term, Unsupported, bool_value, const, lin, show, subst, subterms, sym, t_and,
+from ..sym import (FALSE, TRUE, Evaluator, Frame, Term, Unsupported, bool_value, const, lin, show, subst, subterms, sym, t_and,
                    t_cmp, t_not, t_or)
 
 
@@ -222,6 +222,12 @@ def _i1(model: Model, rep: Report):
     if len(ch_field) != 1 or len(id_field) != 1:
         raise AnalysisError(f"ChannelIdentifier fields changed: {list(fields)}")
     chf, idf = ch_field[0], id_field[0]
+    # an identifier built from a qubit alone names ALL its channels (the spec's reading of 'no channel given'): the default of the channel field is the ALL member
+    dflt = fields[chf].default
+    if dflt is not None:
+        dv = ev.expr(dflt, Frame(None, fields[chf].owner.module, {}, fields[chf].owner, 0))
+        rep.check(dv == ("enum", "QubitChannel", "ALL"), "C19.I1", "ChannelIdentifier[default channel]", c.loc, found=show(dv), required="QubitChannel.ALL",
+                  what=f"ChannelIdentifier(q) without a channel names {show(dv)} only: it no longer overlaps the other channels of its qubit", detail="default-channel")
     # the relation is stated over (qubit, channel) PAIRS: constructed positionally, the first argument is the qubit and the second the channel
     order = [n for n, f_ in fields.items() if f_.init is not False]
     rep.check(order[:2] == [idf, chf], "C19.I1", "ChannelIdentifier[positional order]", c.loc, found=f"init fields in order {order}", required=f"({idf}, {chf}, ...)",
@@ -482,6 +488,9 @@ def _i4(model: Model, rep: Report):
                 ok = (x[0] == "in" and x[1] == b and x[2][0] == "var" and x[2][3] in (("call", "set", (), ()), ("set", ()))
                       and y == ("call", ("attr", x[2], "add"), (b,), ()) and c[1][1][0][0] == "in")
                 why = "" if ok else "the filter is not `not (x in seen or seen.add(x))` with the membership test first"
+        if not ok and not subterms(v0, lambda y: y[0] == "call" and y[1] in ("set", "sorted", "frozenset", ("global", "sorted")) and y[2] and subterms(y[2][0], lambda z: z == param)):
+            # another spelling of a filtered single pass (filterfalse over the seen-set, a marking call in the filter ...): not read; no verdict
+            raise AnalysisError(f"unique_in_order: comprehension {show(v0)[:120]} is not the idiom `[x for x in input if not (x in seen or seen.add(x))]` (shape not read)")
         rep.check(ok, "C19.I4", construct, fn.loc, found=show(v0), required="[x for x in input if not (x in seen or seen.add(x))], seen = set()",
                   what="de-duplication does not keep exactly the first occurrences: " + (why or "comprehension over something else than the whole input, or an unrecognised filter"), detail="comp-idiom")
         return
